@@ -340,6 +340,47 @@ fn on_step<K: Kit>(tier: &str, idx: usize, st: &mut PrmStep<K>, rep: &mut Report
     if let Err((k, w)) = check_query::<K>(st.rig, post, &start, &p3_goal, &res3q, rep) {
         fail!(format!("replaced-problem:{k}"), w, "query-P3");
     }
+    // ---- P4: a start one unit in the last place away from a milestone (a pose read back from an earlier
+    // answer after a conversion round trip), goal at that milestone: the path still begins with the start
+    // itself, bit for bit
+    if let Some((m, _)) = post.first() {
+        let near = crate::lattice::next_up;
+        let p4_start = K::from_v(&match K::to_v(m) {
+            crate::kit::V::Rv(mut x) => {
+                x[0] = near(x[0]);
+                crate::kit::V::Rv(x)
+            }
+            crate::kit::V::So2(a) => crate::kit::V::So2(near(a)),
+            crate::kit::V::So3(mut q) => {
+                q[3] = near(q[3]);
+                crate::kit::V::So3(q)
+            }
+            crate::kit::V::Cmp(mut c) => {
+                c[0] = match c[0].clone() {
+                    crate::kit::V::Rv(mut x) => {
+                        x[0] = near(x[0]);
+                        crate::kit::V::Rv(x)
+                    }
+                    other => other,
+                };
+                crate::kit::V::Cmp(c)
+            }
+        });
+        if st.rig.world.free(&p4_start) && !K::same(&p4_start, m) {
+            let dist4 = dist_fn::<K>(&st.sc.spec);
+            let p4_goal = Arc::new(HGoal::<K>::new(vec![(m.clone(), 1e-6)], vec![m.clone()], dist4));
+            let pd4 = Arc::new(Pd::<K> { space: st.rig.space.clone(), start_states: vec![p4_start.clone()], goal: p4_goal.clone() });
+            st.rig.drv.set_problem_definition(pd4);
+            let res4 = match guarded(|| st.rig.drv.solve(LONG)) {
+                Ok(r) => r,
+                Err(_) => fail!("query-panicked", "solve unwound for a start next to a milestone".into(), "query-P4"),
+            };
+            rep.count("near_milestone_start_queries", 1);
+            if let Err((k, w)) = check_query::<K>(st.rig, post, &p4_start, &p4_goal, &res4, rep) {
+                fail!(format!("replaced-problem:{k}"), w, "query-P4");
+            }
+        }
+    }
     // ---- queries are pure: the first problem asked again answers exactly as it did the first time
     st.rig.drv.set_problem_definition(st.rig.pd.clone());
     let res1b = match guarded(|| st.rig.drv.solve(LONG)) {
